@@ -585,7 +585,7 @@ class Case:
         STATE['sizes'], STATE['selects'], STATE['randint'], STATE['parts'] = [], [], [], None
         try:
             t = w.transaction_create([(EXT['p2wpkh'][0], max(600, avail // 10)), (EXT['p2pkh'][0], 800)], fee=1000,
-                                     number_of_change_outputs=rng.choice([1, 2, 3]), replace_by_fee=True, random_output_order=False)
+                                     number_of_change_outputs=rng.choice([1, 2, 3]), replace_by_fee=True, random_output_order=rng.random() < 0.5)
         except WalletError:
             return
         t.sign()
@@ -632,6 +632,9 @@ class Case:
             ctx.violation('bumpfee changed a recipient output', dict(rep, observed=[(v, c) for v, c, _ in outs1]))
         if not t.verify():
             ctx.violation('transaction does not verify after bumpfee', rep)
+        if [o.output_n for o in t.outputs] != list(range(len(t.outputs))):
+            ctx.violation('after bumpfee the outputs are not numbered by their position in the transaction (a wallet stores them under these numbers)',
+                          dict(rep, output_numbers=[o.output_n for o in t.outputs]))
 
 
 def wallet_bump(case):
